@@ -21,11 +21,13 @@ CONSTANTS Sigs,         \* signatures, e.g. 0..3
           MaxHeight,    \* longest path
           MaxBlocks,    \* stored blocks besides genesis
           MaxReorg,     \* longest old branch a best-switch may abandon
-          MaxCrashes,
+          MaxCrashes,   \* crashes between the log transaction and the block store
+          MaxDowns,     \* other stops of the process (shutdown, kill between imports)
+          MaxSkips,     \* blocks imported while the node runs with --skip-logs
           FreeChoice    \* BOOLEAN
 
-VARIABLE crashes
-mcvars == <<vars, crashes>>
+VARIABLES crashes, downs, skips
+mcvars == <<vars, crashes, downs, skips>>
 
 MCGenesis == <<>>
 MCPar(b) == SubSeq(b, 1, Len(b) - 1)
@@ -65,15 +67,23 @@ ReorgOK(b) == Len(Exclude(best, MCPar(b))) <= MaxReorg
 Becomes(b) == IF FreeChoice THEN TRUE ELSE Better(b, best)
 Stays(b) == IF FreeChoice THEN TRUE ELSE ~Better(b, best)
 
-MCInit == Init /\ crashes = 0
+MCInit == Init /\ crashes = 0 /\ downs = 0 /\ skips = 0
 MCNext == \/ \E b \in Candidates : /\ Room
                                    /\ \/ (Becomes(b) /\ ReorgOK(b) /\ ImportBest(b))
                                       \/ (Stays(b) /\ ImportSide(b))
-                                   /\ UNCHANGED crashes
+                                   /\ UNCHANGED <<crashes, downs, skips>>
           \/ \E b \in Candidates : /\ Room /\ crashes < MaxCrashes /\ Becomes(b) /\ ReorgOK(b) /\ CrashMid(b)
-                                   /\ crashes' = crashes + 1
-          \/ (crashes < MaxCrashes /\ Crash /\ crashes' = crashes + 1)
-          \/ (Resync /\ UNCHANGED crashes)          \* after a crash, and also on a running consistent node (idempotence)
+                                   /\ crashes' = crashes + 1 /\ UNCHANGED <<downs, skips>>
+          \/ (downs < MaxDowns /\ Crash /\ downs' = downs + 1 /\ UNCHANGED <<crashes, skips>>)
+          \* the operator runs the node with --skip-logs for a while: blocks (and reorganisations) the log db never sees
+          \/ (skips < MaxSkips /\ StartSkipLogs /\ UNCHANGED <<crashes, downs, skips>>)
+          \/ \E b \in Candidates : /\ Room /\ skips < MaxSkips
+                                   /\ \/ (Becomes(b) /\ ReorgOK(b) /\ ImportSkipLogs(b, TRUE))
+                                      \/ (Stays(b) /\ ImportSkipLogs(b, FALSE))
+                                   /\ skips' = skips + 1 /\ UNCHANGED <<crashes, downs>>
+          \* start-up with logs: resynchronisation - complete, or cancelled after any block and repeated at the next start
+          \/ (Resync /\ UNCHANGED <<crashes, downs, skips>>)    \* also on a running consistent node (idempotence)
+          \/ \E j \in 1..MaxHeight : (ResyncCancelled(j) /\ UNCHANGED <<crashes, downs, skips>>)
 MCSpec == MCInit /\ [][MCNext]_mcvars
 
 \* ---- invariants
@@ -97,14 +107,18 @@ PairsOK(kind, R, crits) ==
   LET list == CanonicalList(best, kind) IN
   \A c1 \in crits, c2 \in crits :
      FilterRows(R, kind, <<c1, c2>>, <<>>, "desc", <<1, 3>>) = ListFilter(list, kind, <<c1, c2>>, <<>>, "desc", <<1, 3>>)
-FilterEqualsListFilter == up => /\ QueriesOK("E", evRows, EvCrits) /\ QueriesOK("T", trRows, TrCrits)
+FilterEqualsListFilter == (up /\ logging) => /\ QueriesOK("E", evRows, EvCrits) /\ QueriesOK("T", trRows, TrCrits)
                                 /\ PairsOK("T", trRows, TrCrits)
 \* cheaper variant for the large configurations
 FilterEqualsListFilterSmall ==
-  up => /\ QueriesOK("E", evRows, {c \in EvCrits : c.tp[2] = NoTopic /\ c.tp[5] = NoTopic})
+  (up /\ logging) => /\ QueriesOK("E", evRows, {c \in EvCrits : c.tp[2] = NoTopic /\ c.tp[5] = NoTopic})
         /\ QueriesOK("T", trRows, {c \in TrCrits : c.o = Nil})
 
 \* vacuity probes (each must be VIOLATED)
 NoDeepReorg == [][\A b \in Candidates : ~(ImportBest(b) /\ Len(Exclude(best, MCPar(b))) >= 3 /\ Len(Exclude(MCPar(b), best)) >= 2)]_mcvars
 NoResyncRepair == [][~(Resync /\ ~up /\ (evRows' # evRows \/ trRows' # trRows))]_mcvars
+\* a resynchronisation that has to walk below a stale branch of the log db (the log db's newest block is not canonical)
+NoCatchUpOverStaleBranch == [][~(Resync /\ ~up /\ ~logging /\ NewestIDs(evRows, trRows) # {}
+                                 /\ Newest(evRows, trRows) \notin ChainSet(best) /\ Len(best) >= 2)]_mcvars
+NoCancelledResync == [][~(\E j \in 1..MaxHeight : ResyncCancelled(j) /\ j < Len(best))]_mcvars
 =============================================================================
